@@ -118,7 +118,7 @@ def run_runnerdiff(ctx, n, theorems):
     import random
     from suites import engine_specs as S, runnerdiff as RD
     rng = random.Random(ctx.seed * 211 + 5)
-    tmpls = [S.rd_fan, S.rd_wait, S.rd_ir, S.retrychain, S.retrywait, S.tworetries]
+    tmpls = [S.rd_fan, S.rd_wait, S.rd_ir, S.retrychain, S.retrywait, S.tworetries, S.rd_multi]
     exprs, infos, skipped = [], [], 0
     for i in range(n):
         seed = rng.randrange(1 << 30)
